@@ -69,8 +69,9 @@ def _uniform_scn(rng, mname=None):
         u = mach * np.sqrt(gam * p / rho)
         prim = [np.full(n, rho), np.full(n, u), np.full(n, p)]
         bcL, bcR, kind = _euler_bcs(rng, rho, u, p, gam)
-        if "ins" in kind and 0 < abs(mach):
-            cond = 1.0 + 1.0 / mach ** 2
+        # conditions that recover a Mach number from a total-to-static pressure ratio lose 1/M^2 (and sqrt(eps) at M = 0)
+        if any(t in kind.replace("(reversed)", "").split("-") for t in ("insub", "insub_cbc", "outsub_qtot")):
+            cond = 1.0 + 1.0 / mach ** 2 if mach != 0 else float("inf")
         s = abs(u) + np.sqrt(gam * p / rho)
         fs = [rho * s, rho * s * s, rho * s ** 3]; qs = [rho, rho * s, rho * s * s]
     disc = md.fvm(model, mesh, num, numflux=flux, bcL=bcL, bcR=bcR)
@@ -86,6 +87,8 @@ def rhs1d(ctx, rng, idx):
     ctx.describe(**desc)
     r = disc.rhs(f)
     dxmin = float(np.min(mesh.vol()))
+    if not np.isfinite(cond):
+        cond = 1.0          # exactly at rest the boundary state is exact (ptot/p == 1 gives M = 0 exactly)
     for i in range(model.neq):
         ctx.close("rhs1d:residual", np.max(np.abs(r[i])) * dxmin / fs[i] / cond, TOL, "rhs1d/uniform-not-fixed/" + desc["model"] + "/" + kind.split("(")[0],
                   {"eq": i, "residual": r[i], "cond": cond}, cls="rhs1d")
@@ -139,7 +142,10 @@ def nozzle_rest(ctx, rng, idx):
     for i in range(3):
         ctx.close("nozzle:residual", np.max(np.abs(r[i])) * dxmin / fs[i], TOL, "nozzle-rest/rhs-not-zero", {"eq": i}, cls="nozzle-rest")
     solver = gen.integ(iname)(mesh, disc)
-    res = solver.solve(f, 0.5, stop={"maxit": 3})
+    # at rest a total-pressure condition turns a round-off perturbation of p into a velocity of sqrt(round-off): the first step is
+    # exact, later ones are not (same 1/M^2 conditioning as in solve1d)
+    sensitive = bkind == "inout" and (bcL["type"] in ("insub", "insub_cbc") or bcR["type"] == "outsub_qtot")
+    res = solver.solve(f, 0.5, stop={"maxit": 1 if sensitive else 3})
     for i in range(3):
         ctx.close("nozzle:solve", np.max(np.abs(res[-1].data[i] - f.data[i])) / qs[i], TOL, "nozzle-rest/solve-drifts/" + ("implicit" if iname in gen.IMPLICIT else "explicit"),
                   {"eq": i, "integrator": iname}, cls="nozzle-rest")
@@ -158,7 +164,9 @@ def solve1d(ctx, rng, idx):
     if cond > 1.0:
         # total-pressure boundaries amplify a perturbation by up to ~1/M^2 per step (reflection coefficient of the
         # condition itself): bound the compounded conditioning by 1e5 so that round-off cannot reach the tolerance
-        nstep = min(nstep, max(1, int(np.log(1e5) / np.log(cond))))
+        nstep = min(nstep, max(1, int(np.log(1e5) / np.log(cond)))) if np.isfinite(cond) else 1
+    if not np.isfinite(cond):
+        cond = 1.0          # exactly at rest the first step is exact; later steps see sqrt(round-off) velocities at the boundary
     ctx.describe(integrator=iname, cfl=cfl, nstep=nstep, dtlocal=dtlocal, **desc)
     solver = gen.integ(iname)(mesh, disc)
     res = solver.solve(f, cfl, stop={"maxit": nstep}, directives={"dtlocal": True} if dtlocal else {})
